@@ -1,1 +1,435 @@
-//! c09 harnesses
+//! C09 — concurrent index allocation is exclusive, bounded and leak-free.
+//!
+//! (K) symbolic histories on FixedSizeUniqueIndexSet / StaticRobustUniqueIndexSet vs. a set model.
+//! (S) two threads racing acquire/release on the real free-list (incl. the ABA shape), nested
+//!     preemption at every atomic operation and every free-list cell access.
+
+use crate::common::*;
+use iceoryx2_bb_lock_free::mpmc::robust_unique_index_set::*;
+use iceoryx2_bb_lock_free::mpmc::unique_index_set::*;
+use iceoryx2_bb_lock_free::mpmc::unique_index_set_enums::*;
+
+fn uis_history<const CAP: usize, const STEPS: usize>() {
+    let s = FixedSizeUniqueIndexSet::<CAP>::new();
+    assert!(s.capacity() as usize == CAP);
+    let mut m = IdxSet::new();
+    let mut locked = false;
+    let mut was_full = false;
+    let mut reacquired = false;
+    let mut released_once = IdxSet::new();
+    let mut step = 0;
+    while step < STEPS {
+        if kani::any() {
+            match unsafe { s.acquire_raw_index() } {
+                Ok(i) => {
+                    assert!((i as usize) < CAP, "c09: index outside the capacity");
+                    assert!(!m.has(i), "c09: index handed out twice");
+                    assert!(!locked, "c09: acquire succeeded on a locked set");
+                    if released_once.has(i) {
+                        reacquired = true;
+                    }
+                    m.add(i);
+                }
+                Err(UniqueIndexSetAcquireFailure::OutOfIndices) => {
+                    assert!(m.len() as usize == CAP, "c09: OutOfIndices although an index is free");
+                    was_full = true;
+                }
+                Err(UniqueIndexSetAcquireFailure::IsLocked) => {
+                    assert!(locked, "c09: IsLocked although the set was never locked");
+                }
+            }
+        } else {
+            let i: u32 = kani::any();
+            kani::assume(m.has(i));
+            let lock_if_last: bool = kani::any();
+            let mode = if lock_if_last { ReleaseMode::LockIfLastIndex } else { ReleaseMode::Default };
+            let st = unsafe { s.release_raw_index(i, mode) };
+            m.del(i);
+            released_once.add(i);
+            if lock_if_last && m.len() == 0 {
+                assert!(st == ReleaseState::Locked, "c09: releasing the last index with LockIfLastIndex did not lock");
+                locked = true;
+            } else {
+                assert!(st == ReleaseState::Unlocked);
+            }
+        }
+        assert!(s.is_locked() == locked);
+        if !locked {
+            assert!(s.borrowed_indices() == m.len() as usize, "c09: borrowed_indices differs from the model");
+        }
+        step += 1;
+    }
+    // leak freedom: after giving everything back every index is acquirable again (unless locked)
+    let mut i = 0;
+    while i < CAP as u32 {
+        if m.has(i) {
+            unsafe { s.release_raw_index(i, ReleaseMode::Default) };
+            m.del(i);
+        }
+        i += 1;
+    }
+    if !locked {
+        let mut got = IdxSet::new();
+        let mut k = 0;
+        while k < CAP {
+            match unsafe { s.acquire_raw_index() } {
+                Ok(i) => {
+                    assert!((i as usize) < CAP && !got.has(i));
+                    got.add(i);
+                }
+                Err(_) => assert!(false, "c09: an index leaked"),
+            }
+            k += 1;
+        }
+        assert!(unsafe { s.acquire_raw_index() } == Err(UniqueIndexSetAcquireFailure::OutOfIndices));
+    } else {
+        assert!(unsafe { s.acquire_raw_index() } == Err(UniqueIndexSetAcquireFailure::IsLocked), "c09: acquire after lock");
+    }
+    kani::cover!(was_full, "set exhausted");
+    kani::cover!(reacquired, "released index handed out again");
+    kani::cover!(locked, "set locked by releasing the last index");
+}
+
+proof!(8, fn c09_uis_history_cap2() { uis_history::<2, 5>(); canaries(); });
+proof!(8, fn c09_uis_history_cap3() { uis_history::<3, 6>(); canaries(); });
+proof!(8, fn c09_uis_history_cap1() { uis_history::<1, 4>(); canaries(); });
+proof!(8, fn c09_uis_history_cap4() { uis_history::<4, 6>(); canaries(); });
+
+/// RAII flavour: UniqueIndex gives its index back on drop
+proof!(8, fn c09_uis_raii() {
+    let s = FixedSizeUniqueIndexSet::<2>::new();
+    let a = s.acquire().unwrap();
+    {
+        let b = s.acquire().unwrap();
+        assert!(a.value() != b.value() && a.value() < 2 && b.value() < 2);
+        assert!(s.acquire().is_err());
+    }
+    let c = s.acquire().unwrap();
+    assert!(c.value() != a.value());
+    assert!(s.borrowed_indices() == 2);
+    canaries();
+});
+
+fn robust_history<const CAP: usize, const STEPS: usize>() {
+    let s = StaticRobustUniqueIndexSet::<CAP>::new();
+    // model: owner per index, 0 = free; owners are 1 and 2
+    let mut own = [0u64; CAP];
+    let mut locked = false;
+    let mut recovered_any = false;
+    let mut wrong_owner = false;
+    let mut was_full = false;
+    let mut step = 0;
+    while step < STEPS {
+        let op: u8 = kani::any();
+        let who: u64 = kani::any();
+        kani::assume(who == 1 || who == 2);
+        let held = {
+            let mut c = 0;
+            let mut i = 0;
+            while i < CAP {
+                if own[i] != 0 {
+                    c += 1;
+                }
+                i += 1;
+            }
+            c
+        };
+        match op {
+            0 => match unsafe { s.acquire(OwnerId::new(who).unwrap()) } {
+                Ok(i) => {
+                    assert!(i < CAP, "c09: robust index outside the capacity");
+                    assert!(own[i] == 0, "c09: robust index handed out twice");
+                    assert!(!locked, "c09: robust acquire succeeded on a locked set");
+                    own[i] = who;
+                }
+                Err(UniqueIndexSetAcquireFailure::OutOfIndices) => {
+                    assert!(held == CAP, "c09: robust OutOfIndices although an index is free");
+                    was_full = true;
+                }
+                Err(UniqueIndexSetAcquireFailure::IsLocked) => assert!(locked),
+            },
+            1 => {
+                let i: usize = kani::any();
+                kani::assume(i < CAP);
+                let lock_if_last: bool = kani::any();
+                let mode = if lock_if_last { ReleaseMode::LockIfLastIndex } else { ReleaseMode::Default };
+                match unsafe { s.release(i, OwnerId::new(who).unwrap(), mode) } {
+                    Ok(st) => {
+                        assert!(own[i] == who, "c09: release by a non-owner succeeded");
+                        own[i] = 0;
+                        if lock_if_last && held == 1 && !locked {
+                            assert!(st == ReleaseState::Locked);
+                            locked = true;
+                        } else if lock_if_last && locked {
+                            assert!(st == ReleaseState::Locked);
+                        } else {
+                            assert!(st == ReleaseState::Unlocked);
+                        }
+                    }
+                    Err(e) => {
+                        assert!(e == RobustUniqueIndexSetReleaseError::IndexIsNotOwnedByProvidedOwner);
+                        assert!(own[i] != who, "c09: release by the owner refused");
+                        wrong_owner = true;
+                    }
+                }
+            }
+            _ => {
+                // recover every index of the dead owner `who`
+                let mut got = [false; CAP];
+                let st = unsafe {
+                    s.recover(ReleaseMode::Default, |o, _| o == OwnerId::new(who).unwrap(), |o, n| {
+                        assert!(o == OwnerId::new(who).unwrap());
+                        got[n] = true;
+                    })
+                };
+                if locked {
+                    assert!(st == ReleaseState::Locked);
+                } else {
+                    assert!(st == ReleaseState::Unlocked);
+                    let mut i = 0;
+                    while i < CAP {
+                        assert!(got[i] == (own[i] == who), "c09: recovery did not return exactly the dead owner's indices");
+                        if own[i] == who {
+                            own[i] = 0;
+                            recovered_any = true;
+                        }
+                        i += 1;
+                    }
+                }
+            }
+        }
+        assert!(s.is_locked() == locked);
+        step += 1;
+    }
+    if !locked {
+        // everything that is free is acquirable
+        let mut i = 0;
+        let mut free = 0;
+        while i < CAP {
+            if own[i] == 0 {
+                free += 1;
+            }
+            i += 1;
+        }
+        let mut k = 0;
+        while k < CAP {
+            if k < free {
+                match unsafe { s.acquire(OwnerId::new(3).unwrap()) } {
+                    Ok(i) => {
+                        assert!(own[i] == 0);
+                        own[i] = 3;
+                    }
+                    Err(_) => assert!(false, "c09: a free robust index is not acquirable"),
+                }
+            }
+            k += 1;
+        }
+        assert!(unsafe { s.acquire(OwnerId::new(3).unwrap()) } == Err(UniqueIndexSetAcquireFailure::OutOfIndices));
+    }
+    kani::cover!(recovered_any, "dead owner's index recovered");
+    kani::cover!(wrong_owner, "release with the wrong owner refused");
+    kani::cover!(was_full, "robust set exhausted");
+    kani::cover!(locked, "robust set locked");
+}
+
+proof!(8, fn c09_robust_history_cap2() { robust_history::<2, 4>(); canaries(); });
+proof!(8, fn c09_robust_history_cap3() { robust_history::<3, 5>(); canaries(); });
+
+// ==========================================================================================
+// engine S
+// ==========================================================================================
+
+#[cfg(feature = "sched")]
+pub mod sched {
+    use super::*;
+    use iceoryx2_pal_concurrency_sync::verif_atomic::{verif_clear_hook, verif_set_hook};
+
+    pub const MAXC: usize = 4;
+
+    pub struct Book {
+        pub own: [u8; MAXC],       // 9 = free, 1 = outer thread, 2 = inner thread
+        pub in_inner: u8,
+        pub inner_budget: usize,
+        pub outer_in_flight: u8,
+        pub max_held_in_op: usize,
+        pub inner_mid_op: bool,
+        pub inner_acq_mid_op: usize,
+        pub inner_rel_mid_op: usize,
+        pub bad_fail: bool,
+        pub cap: usize,
+    }
+    pub static mut BOOK: Book = Book {
+        own: [9; MAXC], in_inner: 2, inner_budget: 0, outer_in_flight: 2, max_held_in_op: 0, inner_mid_op: false,
+        inner_acq_mid_op: 0, inner_rel_mid_op: 0, bad_fail: false, cap: 0,
+    };
+    pub static mut SPTR: usize = 1;
+
+    fn held(b: &Book) -> usize {
+        let mut c = 0;
+        let mut i = 0;
+        while i < MAXC {
+            if b.own[i] != 9 {
+                c += 1;
+            }
+            i += 1;
+        }
+        c
+    }
+
+    fn take(b: &mut Book, i: u32, who: u8) {
+        assert!((i as usize) < b.cap, "c09: index outside the capacity");
+        assert!(b.own[i as usize] == 9, "c09: two holders own the same index");
+        b.own[i as usize] = who;
+    }
+
+    unsafe fn set<const CAP: usize>() -> &'static FixedSizeUniqueIndexSet<CAP> {
+        &*(SPTR as *const FixedSizeUniqueIndexSet<CAP>)
+    }
+
+    /// inner thread: one complete acquire or release, chosen by the solver
+    pub fn hook<const CAP: usize>() {
+        unsafe {
+            let b = &mut BOOK;
+            if b.in_inner == 1 {
+                return;
+            }
+            b.in_inner = 1;
+            if b.inner_budget > 0 && kani::any::<bool>() {
+                b.inner_budget -= 1;
+                let s = set::<CAP>();
+                let mid = b.outer_in_flight == 1;
+                if mid {
+                    b.inner_mid_op = true;
+                }
+                let rel: bool = kani::any();
+                let mut done = false;
+                if rel {
+                    let i: usize = kani::any();
+                    kani::assume(i < CAP);
+                    if b.own[i] == 2 {
+                        b.own[i] = 9;
+                        s.release_raw_index(i as u32, ReleaseMode::Default);
+                        done = true;
+                        if mid {
+                            b.inner_rel_mid_op += 1;
+                        }
+                    }
+                }
+                if !done {
+                    let h = held(b);
+                    match s.acquire_raw_index() {
+                        Ok(i) => {
+                            take(b, i, 2);
+                            if mid {
+                                b.inner_acq_mid_op += 1;
+                            }
+                        }
+                        Err(e) => {
+                            assert!(e == UniqueIndexSetAcquireFailure::OutOfIndices);
+                            // the outer operation in flight may hold one index the table does not show yet
+                            let slack = if mid { 1 } else { 0 };
+                            if h + slack < CAP {
+                                b.bad_fail = true;
+                            }
+                        }
+                    }
+                }
+                let h = held(b);
+                if h > b.max_held_in_op {
+                    b.max_held_in_op = h;
+                }
+            }
+            b.in_inner = 2;
+        }
+    }
+
+    fn outer_acquire<const CAP: usize>(s: &FixedSizeUniqueIndexSet<CAP>) -> Option<u32> {
+        unsafe {
+            BOOK.max_held_in_op = held(&BOOK);
+            BOOK.outer_in_flight = 1;
+            let r = s.acquire_raw_index();
+            BOOK.outer_in_flight = 2;
+            match r {
+                Ok(i) => {
+                    take(&mut BOOK, i, 1);
+                    Some(i)
+                }
+                Err(e) => {
+                    assert!(e == UniqueIndexSetAcquireFailure::OutOfIndices);
+                    if BOOK.max_held_in_op < CAP {
+                        BOOK.bad_fail = true;
+                    }
+                    None
+                }
+            }
+        }
+    }
+
+    fn outer_release<const CAP: usize>(s: &FixedSizeUniqueIndexSet<CAP>, i: u32) {
+        unsafe {
+            BOOK.own[i as usize] = 9;
+            BOOK.outer_in_flight = 1;
+            s.release_raw_index(i, ReleaseMode::Default);
+            BOOK.outer_in_flight = 2;
+        }
+    }
+
+    /// outer: acquire, [release], acquire, [release] ...; inner: up to INNER complete operations
+    pub fn race<const CAP: usize, const OUTER: usize, const INNER: usize>() {
+        let s = FixedSizeUniqueIndexSet::<CAP>::new();
+        unsafe {
+            SPTR = &s as *const _ as usize;
+            BOOK.cap = CAP;
+            BOOK.inner_budget = INNER;
+            // optional warm-up by the inner thread so that the outer thread starts on a used free-list
+            hook::<CAP>();
+            verif_set_hook(hook::<CAP>);
+            let mut mine: [u32; MAXC] = [0; MAXC];
+            let mut nmine = 0usize;
+            let mut k = 0;
+            while k < OUTER {
+                if nmine > 0 && kani::any::<bool>() {
+                    nmine -= 1;
+                    outer_release(&s, mine[nmine]);
+                } else if let Some(i) = outer_acquire(&s) {
+                    mine[nmine] = i;
+                    nmine += 1;
+                }
+                hook::<CAP>();
+                k += 1;
+            }
+            verif_clear_hook();
+            assert!(!BOOK.bad_fail, "c09: acquire failed although an index was free during the whole call");
+            assert!(s.borrowed_indices() == held(&BOOK), "c09: borrowed_indices differs from the holders");
+            // give everything back, then every index must be acquirable exactly once
+            let mut i = 0;
+            while i < CAP {
+                if BOOK.own[i] != 9 {
+                    BOOK.own[i] = 9;
+                    s.release_raw_index(i as u32, ReleaseMode::Default);
+                }
+                i += 1;
+            }
+            let mut got = IdxSet::new();
+            let mut k = 0;
+            while k < CAP {
+                match s.acquire_raw_index() {
+                    Ok(i) => {
+                        assert!((i as usize) < CAP && !got.has(i), "c09: free-list corrupted (duplicate index)");
+                        got.add(i);
+                    }
+                    Err(_) => assert!(false, "c09: an index leaked under concurrency"),
+                }
+                k += 1;
+            }
+            assert!(s.acquire_raw_index().is_err());
+            kani::cover!(BOOK.inner_mid_op, "inner operation ran while an outer operation was in flight");
+            kani::cover!(BOOK.inner_acq_mid_op >= 1 && BOOK.inner_rel_mid_op >= 1,
+                "ABA shape: acquire and release completed inside one outer operation");
+        }
+    }
+
+    proof!(8, fn c09_s_uis_race_cap2() { race::<2, 2, 3>(); canaries(); });
+    proof!(8, fn c09_s_uis_race_cap3_deep() { race::<3, 3, 4>(); canaries(); });
+    proof!(8, fn c09_s_uis_race_cap1() { race::<1, 2, 3>(); canaries(); });
+}
